@@ -59,7 +59,7 @@ func (c writeCase) effectiveWritable() *fieldmaskpb.FieldMask {
 }
 
 func (c writeCase) spec() lib.UpdateSpec {
-	return lib.UpdateSpec{UpdateMask: c.update, Writable: c.effectiveWritable(), ResetMask: c.reset}
+	return lib.UpdateSpec{UpdateMask: c.update, Writable: c.effectiveWritable(), ResetMask: c.reset, PathByPath: true}
 }
 
 func drawValidMaskNoNilEmpty(t *rapid.T, label string, md protoreflect.MessageDescriptor, bias ...proto.Message) (*fieldmaskpb.FieldMask, string) {
